@@ -156,9 +156,10 @@ def run(ctx):
                 "values are compared (1e-12) with the real functions on scalars, arrays and 0-d arrays with stand-in constants "
                 "/ saturation functions (canary-guarded). Every grid point counts as non-trivial.")
     d = ctx.tlc_dir("num")
-    res = ctx.tlc(d, "HumidityProps", "HumidityProps.cfg", workers=1, timeout=600)
+    big = ctx.tier != "quick"
+    res = ctx.tlc(d, "HumidityProps", "HumidityPropsBig.cfg" if big else "HumidityProps.cfg", workers=1, timeout=1500)
     cases = list(res.tagged("CASE"))
-    if len(cases) != 14:
+    if len(cases) != (30 if big else 14):
         raise MachineryError("expected 12 humidity grid cases")
     ctx.exhaustive = True
     pmap(ctx, replay, cases, procs=1)
